@@ -62,6 +62,8 @@ pub fn sstr() -> Vec<String> {
         "", "a", "A", "b", "ab", "aB", "a\0", "a\x01", "a\x01\x03", "a\x01\x04", "\0", "\x01", "é",
         "É", "€", "💎", "\"", "\\", "\n", "\x7f", "\u{2028}", "/", "true", "TRUE", "1", "-1", "1.5",
         "\x08\x0c\r\t", "\x1f", "a\"b\\c",
+        // strings that spell JSON documents, DEL next to a character that needs an escape, a lone backslash path
+        "[]", "{\"a\":1}", "null", "\x7f\n", "C:\\temp",
     ]
     .iter()
     .map(|s| s.to_string())
